@@ -454,11 +454,70 @@ func heapArrays(n, prios int) [][]int {
 // full observation and a complete drain. Reaches the deep-heap cases (an inner slot whose replacement
 // comes from another subtree and has to sift UP) that the closure over 6-7 keys cannot contain.
 func bigQueues(run *vx.Run, lo, hi, prios int) (states, trans int64) {
-	type job struct{ arr []int }
 	var jobs [][]int
 	for n := lo; n <= hi; n++ {
 		jobs = append(jobs, heapArrays(n, prios)...)
 	}
+	return queuesFrom(run, jobs, prios)
+}
+
+// deepArrays: structured heap-ordered arrays with sift paths of depth 5 and 6 (sizes 31..100).
+func deepArrays() [][]int {
+	var out [][]int
+	depth := func(i int) int {
+		d := 0
+		for i > 0 {
+			i = (i - 1) / 2
+			d++
+		}
+		return d
+	}
+	for _, n := range []int{31, 32, 33, 63, 64, 65, 100} {
+		mk := func(f func(i int) int) {
+			a := make([]int, n)
+			for i := range a {
+				a[i] = f(i)
+			}
+			// make it heap-ordered whatever f was: a child is at least its parent
+			for i := 1; i < n; i++ {
+				if a[i] < a[(i-1)/2] {
+					a[i] = a[(i-1)/2]
+				}
+			}
+			out = append(out, a)
+		}
+		mk(func(i int) int { return 0 })              // all tied
+		mk(func(i int) int { return depth(i) })       // one priority per level
+		mk(func(i int) int { return i })              // all distinct, array order
+		mk(func(i int) int { return depth(i) + i%2 }) // left children tie with the level, right ones with the next
+		mk(func(i int) int {                          // the right subtree of the root far above the left one
+			j := i
+			for j > 2 {
+				j = (j - 1) / 2
+			}
+			if j == 2 {
+				return 50 + depth(i)
+			}
+			return depth(i)
+		})
+		mk(func(i int) int { // the LEFT subtree far above the right one (the last element sits left)
+			j := i
+			for j > 2 {
+				j = (j - 1) / 2
+			}
+			if j == 1 {
+				return 50 + depth(i)
+			}
+			return depth(i)
+		})
+	}
+	return out
+}
+
+// queuesFrom: every single Remove / Update / Pop on the queue built from each heap array, then a
+// full observation and a complete drain. Update uses every priority 1..prios (prios <= 0: below the
+// minimum, every distinct priority present, between, above the maximum).
+func queuesFrom(run *vx.Run, jobs [][]int, prios int) (states, trans int64) {
 	var mu sync.Mutex
 	vx.Parallel(len(jobs), func(ji int) {
 		arr := jobs[ji]
@@ -521,7 +580,30 @@ func bigQueues(run *vx.Run, lo, hi, prios int) (states, trans int64) {
 			q.Remove(k)
 			delete(model, k)
 			check(fmt.Sprintf("Remove(k%d)", k), q, model)
-			for p := 1; p <= prios; p++ {
+			var ups []int
+			if prios > 0 {
+				for p := 1; p <= prios; p++ {
+					ups = append(ups, p)
+				}
+			} else {
+				// the model priorities are arr[i]+1 >= 1: 0 is below all of them; the key's parent's,
+				// children's and own priority, the overall maximum and one above it
+				ups = []int{0, arr[k] + 1, arr[n-1] + 1, arr[n-1] + 2}
+				if k > 0 {
+					ups = append(ups, arr[(k-1)/2]+1, arr[(k-1)/2])
+				}
+				for _, c := range []int{2*k + 1, 2*k + 2} {
+					if c < n {
+						ups = append(ups, arr[c]+1, arr[c]+2)
+					}
+				}
+			}
+			seenUp := map[int]bool{}
+			for _, p := range ups {
+				if seenUp[p] {
+					continue
+				}
+				seenUp[p] = true
 				q, model := build()
 				q.Update(k, p)
 				model[k] = p
@@ -535,6 +617,73 @@ func bigQueues(run *vx.Run, lo, hi, prios int) (states, trans int64) {
 		trans += local
 		mu.Unlock()
 	})
+	return
+}
+
+// deepHeaps: Heap built from large initial slices in structured orders, some pushes, then drained.
+func deepHeaps(run *vx.Run) (states, trans int64) {
+	for _, n := range []int{31, 32, 33, 63, 64, 65, 100} {
+		orders := map[string]func(i int) int{
+			"descending": func(i int) int { return n - i },
+			"ascending":  func(i int) int { return i },
+			"sawtooth":   func(i int) int { return (i * 7) % 13 },
+			"two-valued": func(i int) int { return (i / 3) % 2 },
+			"last-small": func(i int) int {
+				if i == n-1 {
+					return -1
+				}
+				return i % 5
+			},
+		}
+		for name, f := range orders {
+			for _, cmpCtor := range []bool{false, true} {
+				init := make([]int, n)
+				for i := range init {
+					init[i] = f(i)
+				}
+				model := append([]int(nil), init...)
+				var h xheap.Heap[int]
+				if cmpCtor {
+					h = xheap.NewCmp(func(a, b int) int { return a - b }, init)
+				} else {
+					h = xheap.New(func(a, b int) bool { return a < b }, init)
+				}
+				bad := ""
+				if p := vx.Catch(func() {
+					for _, x := range []int{-5, 3, 1000} {
+						h.Push(x)
+						model = append(model, x)
+					}
+					sort.Ints(model)
+					if h.Len() != len(model) {
+						bad = fmt.Sprintf("Len()=%d, model %d", h.Len(), len(model))
+						return
+					}
+					for i, want := range model {
+						if pk := h.Peek(); pk != want {
+							bad = fmt.Sprintf("Peek before pop #%d = %d, want %d", i, pk, want)
+							return
+						}
+						if got := h.Pop(); got != want {
+							bad = fmt.Sprintf("pop #%d = %d, want %d", i, got, want)
+							return
+						}
+						trans++
+					}
+					if h.Len() != 0 {
+						bad = "heap not empty after draining"
+					}
+				}); p != nil {
+					bad = fmt.Sprintf("panic: %v", p)
+				}
+				states++
+				if bad != "" {
+					run.Violate(vx.Violation{Signature: "heap/deep-heap", Detail: fmt.Sprintf("Heap built from %d items in %s order (NewCmp=%v), 3 pushes, drain: %s", n, name, cmpCtor, bad),
+						Replay: map[string]any{"kind": "deepheap", "n": n, "order": name, "cmp": cmpCtor}})
+				}
+			}
+		}
+	}
 	return
 }
 
@@ -559,8 +708,8 @@ func main() {
 	heapMax, heapPrios, heapInit := 7, 3, 6
 	pqKeys, pqPrios, pqInitLen, pqInitKeys, pqInitPrios := 6, 3, 4, 3, 2
 	if !run.Quick() {
-		heapMax, heapInit = 9, 8
-		pqKeys, pqInitLen = 7, 5
+		heapMax, heapInit = 10, 8
+		pqKeys, pqInitLen = 8, 5
 	}
 	hInits := allLists(heapPrios, heapInit)
 	var pInits [][]kp
@@ -576,9 +725,23 @@ func main() {
 			Kind string    `json:"kind"`
 			Cmp  bool      `json:"cmp"`
 			Ops  []seqx.Op `json:"ops"`
+			Arr  []int     `json:"array"`
 		}
 		run.LoadReplay(&rp)
 		var r seqx.Result
+		if rp.Kind == "bigheap" {
+			// every single operation on the queue built from the recorded heap array
+			prios := 3
+			if len(rp.Arr) > 15 {
+				prios = 0
+			}
+			queuesFrom(run, [][]int{rp.Arr}, prios)
+			run.Finish()
+		}
+		if rp.Kind == "deepheap" {
+			deepHeaps(run)
+			run.Finish()
+		}
 		if rp.Kind == "heap" {
 			s := heapSys{cmp: rp.Cmp, maxSize: heapMax, prios: heapPrios, inits: allLists(heapPrios, 8)}
 			fmt.Println(s.pathStr(rp.Ops))
@@ -644,10 +807,16 @@ func main() {
 	}
 	lo, hi := 8, 13
 	if !run.Quick() {
-		hi = 15
+		hi = 16
 	}
 	bs, bt := bigQueues(run, lo, hi, 3)
 	run.AddCounts(bs, bt, bt)
+	ds, dt := queuesFrom(run, deepArrays(), 0)
+	run.AddCounts(ds, dt, dt)
+	hs, ht := deepHeaps(run)
+	run.AddCounts(hs, ht, ht)
+	configs = append(configs, map[string]any{"container": "PriorityQueue", "mode": "structured heap arrays of sizes 31..100 (sift paths of depth 5-6) x every single Remove / Update (to the priorities of the key's parent, children, the extremes and beyond) / Pop, then full observation and drain", "heap_states": ds, "transitions": dt})
+	configs = append(configs, map[string]any{"container": "Heap", "mode": "initial slices of sizes 31..100 in structured orders (heapify), a few pushes, complete drain against a sorted copy", "heap_states": hs, "transitions": ht})
 	configs = append(configs, map[string]any{"container": "PriorityQueue", "mode": "every heap-ordered array of sizes 8.." + fmt.Sprint(hi) + " over 3 priorities x every single Remove/Update/Pop, then full observation and drain", "heap_states": bs, "transitions": bt})
 	run.Set("configurations", configs)
 	run.Set("rule", "state = heap array order as exposed by Iterate (priorities; ids relabelled); closure over Push/Pop resp. Update/Remove/Pop from every initial slice; full observation (Len, Peek, Contains/Priority of every key incl. absent, Iterate) after every transition")
